@@ -54,7 +54,7 @@ func c20(c *q.Ctx) {
 	// dispatcher
 	la := c.NewLockAnalysis("kernel/network/p2p")
 	la.GuardedBy("dispatcher.mc", "dispatcher.mu", map[string]string{p2p + "NewDispatcher": "constructor: the object is not shared yet"}, 8)
-	la.Pairing(nil)
+	la.Pairing(map[string]q.PairExempt{})
 	dp := c.Fn(p2p + "(*dispatcher).Dispatch")
 	if dp != nil {
 		c.Guard(dp, q.Cond{Canon: "p2p.(*dispatcher).IsHandled(p0,p1)", Sense: true}, q.ToCall("Subscriber.Match"), q.Opt{})
